@@ -10,7 +10,7 @@ type catchCand struct {
 // thrown types of the exhaustiveness family
 func catchTypes() [][]string {
 	return [][]string{
-		{"Int", "String", "nil"}, {"Int", "nil"}, {"String"}, {"Symbol"}, {"P", "Q"}, {"P"}, {"Int", "Float"},
+		{"Int"}, {"Int", "String", "nil"}, {"Int", "nil"}, {"String"}, {"Symbol"}, {"P", "Q"}, {"P"}, {"Int", "Float"},
 		{"Bool"}, {"Bool", "nil"}, {"String", "Symbol"}, {"any"},
 	}
 }
